@@ -23,7 +23,7 @@ LEVEL = "exploration"
 RULE = ("E1: ('core', len, zrun, enc) = every payload length 1..N x zero run x plain/encrypted for one component at offset 5 "
         "(bytes and text envelope); ('bf3', vector) = every vector with <= d deviations over component count 0..3, per-slot "
         "length/tag layout/encryption/declared length, 10 start offsets incl. 0, 65535, 65536, and 4 keys; ('bec2', order, body, key) "
-        "= every ordered non-empty subset of {customer-key, ECC, update} blocks x 3 bodies x 2 keys. Oracle: byte identity with the "
+        "= every ordered non-empty subset of {customer-key, ECC, update} blocks x 3 bodies x 2 keys. ('hist', ops) = every operation sequence of length <= 4 (5) on ONE live Bf3File (serialise with 2 keys / offsets, replace the plain or the encrypted blob, append / remove a component, add a tag) with >= 2 serialisations. Oracle: byte identity with the "
         "independent serialiser, acceptance and equal content by the independent validator, header structure, text envelope. "
         "Distinct = distinct vectors; non-trivial = at least one component (directory arithmetic exercised).")
 ASSUMPTIONS = [
@@ -75,6 +75,13 @@ def cases(ctx):
         for body in range(3):
             for ki in (2, 3):
                 yield ("bec2", oi, body, ki)
+    # histories on ONE live Bf3File: every serialisation must be the layout of the object's CURRENT content
+    from itertools import product as _product
+    depth = 4 if ctx.quick else 5
+    for n in range(2, depth + 1):
+        for seq in _product(range(len(HIST_OPS)), repeat=n):
+            if HIST_OPS[seq[-1]][0] == "bin" and any(HIST_OPS[x][0] == "bin" for x in seq[:-1]):
+                yield ("hist",) + seq
 
 
 def declared(mode, n):
@@ -138,9 +145,53 @@ def check_text(o, text, comments, binary, what):
     return True
 
 
+HIST_OPS = [("bin", 1, 5), ("bin", 3, 9), ("plainblob",), ("encblob",), ("append",), ("pop",), ("tag",)]
+
+
+def run_history(ctx, o, seq):
+    model = [{"tags": list(TAGS[0]), "content": shapes.payload(ctx, "c03-h0", 19, 0), "declared": 19, "enc": False},
+             {"tags": [(0xC3, b"\x03"), (0xC2, b"\x02")], "content": shapes.payload(ctx, "c03-h1", 21, 1), "declared": 21, "enc": True}]
+    f = shapes.mk_bf3([], model)
+    n = 0
+    for step, oi in enumerate(seq):
+        op = HIST_OPS[oi]
+        n += 1
+        if op[0] == "bin":
+            key = key_of(ctx, op[1])
+            got = f.to_binary(op[2], key)
+            if not check_binary(o, got, model, op[2], key, "to_binary after operations %r" % ([HIST_OPS[x] for x in seq[:step + 1]],)):
+                o.viols = [("history|" + fp, m, d) for fp, m, d in o.viols]
+                return o
+        elif op[0] in ("plainblob", "encblob"):
+            want_enc = op[0] == "encblob"
+            for c, m in zip(f.components, model):
+                if m["enc"] == want_enc:
+                    m["content"] = shapes.payload(ctx, "c03-hb%d" % n, 16 + n * 7, n % 2)
+                    m["declared"] = len(m["content"])
+                    c.blob = m["content"]
+                    c.actual_len = m["declared"]
+                    break
+        elif op[0] == "append":
+            if len(model) < 4:
+                m = {"tags": list(TAGS[4]), "content": shapes.payload(ctx, "c03-ha%d" % n, 33, 0), "declared": 30, "enc": False}
+                model.append(m)
+                f.components.append(shapes.mk_component(m))
+        elif op[0] == "pop":
+            if model:
+                model.pop(0)
+                f.components.pop(0)
+        elif op[0] == "tag":
+            if model:
+                model[-1]["tags"] = model[-1]["tags"] + [(0x30 + n, bytes([n]))]
+                f.components[-1].description[0x30 + n] = bytes([n])
+    return o
+
+
 def run_case(ctx, case):
     kind = case[0]
     o = Outcome("layout-ok", True)
+    if kind == "hist":
+        return run_history(ctx, o, case[1:])
     if kind == "core":
         _, ln, z, enc = case
         comps = [{"tags": TAGS[0], "content": shapes.payload(ctx, "c03", ln, z), "declared": ln, "enc": enc}]
